@@ -817,6 +817,10 @@ theorem inv_step (s : St) (t : Tid) (e : Ev) (s' : St) (h : Inv s) (hs : step s 
     split at hs
     · injection hs with hs; subst hs; exact h
     · contradiction
+  · -- wCalled, uth: user code run by the call itself throws before any lock operation
+    rename_i w hpc
+    injection hs with hs; subst hs; rw [setPc_eq]
+    exact inv_setLoc h (tinv_plain hl (by simp [hpc, Pc.plain]) (by simp [Pc.plain]))
   · contradiction
 
 /-! ## Frame facts about one step -/
